@@ -79,7 +79,8 @@ def applyOp (s : State) : IOp → State
     | some f, some x =>
       -- (the winner is normally STARTING; the interpreter also lets a head co-win with an action that is already
       --  STOPPING — observed in recorded traces — so no status guard here: the invariant does not need one)
-      if a != b then
+      -- the loser is a listening flow that holds `b` (`action_uids.index(b)` raises ValueError otherwise)
+      if a != b && f.status.listening && f.actionUids.contains b then
         let s1 := setFlow s loser { f with actionUids := f.actionUids.map fun y => if y == b then a else y }
         { setAction s1 a { x with count := x.count + 1 } with actions := fun v => if v = b then none else (setAction s1 a { x with count := x.count + 1 }).actions v }
       else s
